@@ -92,15 +92,15 @@ def addDecoderNode (b : Build) (sym code codeLen : Nat) : Build :=
   let stop := addFillEnd start fend
   { tree := addFill b.tree cur sym codeLen start (stop - start), bad := b.bad || decide (stop > 256) }
 
-/-- one iteration of `for i, code := range huffmanCodes { addDecoderNode(byte(i), code, huffmanCodeLen[i]) }` -/
-def buildStep (b : Build) (ci : Nat × Nat) : Build :=
-  let b' := addDecoderNode b (ci.2 % 256) ci.1 (huffmanCodeLen.getD ci.2 0)
-  { b' with bad := b'.bad || decide (huffmanCodeLen.length ≤ ci.2) }
+/-- one iteration of `for i, code := range huffmanCodes { addDecoderNode(byte(i), code, huffmanCodeLen[i]) }`
+(both tables are Go arrays of the same length — checked by the extractor, `Gen.HpackHuff.tableArrayLen` — so
+`huffmanCodeLen[i]` is the i-th element of the zipped tables) -/
+def buildStep (b : Build) (cli : (Nat × Nat) × Nat) : Build := addDecoderNode b (cli.2 % 256) cli.1.1 cli.1.2
 
 /-- `buildRootHuffmanNode()` -/
 def buildRoot : Build :=
-  let b0 : Build := { tree := { cells := 0, count := 1 }, bad := decide (huffmanCodes.length ≠ tableLen) }
-  huffmanCodes.zipIdx.foldl buildStep b0
+  ((huffmanCodes.zip huffmanCodeLen).zipIdx 0).foldl buildStep
+    { tree := { cells := 0, count := 1 }, bad := decide (huffmanCodes.length ≠ tableLen) }
 
 def huffTree : Tree := buildRoot.tree
 
